@@ -30,16 +30,19 @@ type FileManager struct {
 	patch map[string][]*plugin.Generated
 	index map[string]int
 	count map[string]int
-	log   backend.LogFunc
+	// origin maps the index of a file renamed due to a name conflict to the name it was submitted with.
+	origin map[int]string
+	log    backend.LogFunc
 }
 
 // NewFileManager creates a new FileManager.
 func NewFileManager(log backend.LogFunc) *FileManager {
 	return &FileManager{
-		patch: make(map[string][]*plugin.Generated),
-		index: make(map[string]int),
-		count: make(map[string]int),
-		log:   log,
+		patch:  make(map[string][]*plugin.Generated),
+		index:  make(map[string]int),
+		count:  make(map[string]int),
+		origin: make(map[int]string),
+		log:    log,
 	}
 }
 
@@ -82,16 +85,22 @@ FileLoop:
 						continue FileLoop
 					}
 					renamed = fmt.Sprintf("%s_%d%s", pth, cnt, ext)
-					if cnt > fm.count[name] {
+					next, taken := fm.index[renamed]
+					if !taken {
 						break
-					} else {
-						idx = fm.index[renamed]
-						cnt++
 					}
+					// the candidate name is in use: if that file was renamed from
+					// the same name, its content must be compared as well;
+					// otherwise it is an unrelated file and the name is skipped.
+					if fm.origin[next] == name {
+						idx = next
+					}
+					cnt++
 				}
 
 				fm.log.Warn(fmt.Sprintf("[%s] file names conflict: '%s' (%d <> %d)", src, name, len(fm.files[fst].Content), len(f.Content)))
 				fm.index[renamed] = len(fm.files)
+				fm.origin[len(fm.files)] = name
 				fm.files = append(fm.files, f)
 				fm.count[name]++
 				f.Name = &renamed
